@@ -19,7 +19,7 @@ import (
 // the read-back function.
 const preludeJS = `
 var S={v:{},d:{},P:function(){},a:{},w:{},arr:[],n:0};
-var C=0, F=400, flag=false, t;
+var C=0, F=400, flag=false, t, GQ={};
 var inc, peek;
 (function(){var log=[]; inc=function(x){log[log.length]=x}; peek=function(){return log.join(',')}})();
 function __tc(){try{throw 0}catch(e0){return __rb()}}
@@ -116,7 +116,7 @@ type PG struct {
 var allKinds = []string{
 	"tx", "if", "for", "while", "dowhile", "forin", "label", "brk", "switch", "try", "throw",
 	"with", "fn", "call", "callback", "accessor", "coerce", "eval", "closure", "debugger",
-	"hostfault", "flag", "recurse", "reenter", "var",
+	"hostfault", "flag", "recurse", "reenter", "var", "ctx",
 }
 
 func (g *PG) n(lo, hi int, label string) int {
@@ -377,6 +377,15 @@ func (g *PG) stmt(c genCtx) string {
 		return "var " + cN + "=(function(){var k=0;return function(){k++;" + fb + "return k}})();" + cN + "();S.n+=" + cN + "();"
 	case "debugger":
 		return "debugger;"
+	case "ctx":
+		// a host function asks for Otto.Context() while a visible binding is an
+		// accessor: Context runs the getter, so faults can land inside it
+		// (one accessor per object: Context reads the bindings of one object in Go
+		// map order, two getters with side effects would make the run depend on it;
+		// the getter does not re-enter itself through a nested hctx)
+		fb := g.fnBody(c)
+		w := g.id("wq")
+		return "with({get " + w + "(){if(GQ." + w + ")return 0;GQ." + w + "=1;" + fb + "GQ." + w + "=0;return 1}}){hctx();}"
 	case "hostfault":
 		g.nHostF++
 		return "hf();"
